@@ -713,6 +713,7 @@ type semantics struct {
 	NoPeriodicSet bool // relative:P:set is compiled and then ignored
 	NoEventGet    bool // onvalid:get / onexit:get never write a row
 	NoExitAtEnd   bool // onexit fires only on -sim-stop-on-valid-of, not when the tick budget ends
+	StealsValid   bool // a relative:P:set:iK listed before the first absolute:T:set:iK stops the latter from raising valid
 }
 
 type prule struct {
@@ -839,6 +840,16 @@ func predict(m Mach, bm *bondmachine.Bondmachine, rules []mrule, interactions, s
 		return false, false
 	}
 	prevValid := map[string]bool{}
+	stolen := map[int]bool{} // StealsValid: inputs whose first set rule in the list is a periodic one
+	if sem.StealsValid {
+		seen := map[int]bool{}
+		for _, p := range prs {
+			if p.Action == "set" && p.obj.input >= 0 && !seen[p.obj.input] {
+				seen[p.obj.input] = true
+				stolen[p.obj.input] = p.Class == "relative"
+			}
+		}
+	}
 
 	for i := 0; i < interactions; i++ {
 		var to tickOut
@@ -870,7 +881,7 @@ func predict(m Mach, bm *bondmachine.Bondmachine, rules []mrule, interactions, s
 					return
 				}
 				*p.obj.slot(vm) = regVal(m.Rsize, v)
-				if p.obj.input >= 0 { // presenting a value on an external input raises its valid flag
+				if p.obj.input >= 0 && !stolen[p.obj.input] { // presenting a value on an external input raises its valid flag
 					vm.InputsValid[p.obj.input] = true
 				}
 			}
